@@ -123,6 +123,15 @@ CONC = {
                 quick_episodes=350, thorough_episodes=4000,
                 rule=SLICE_JOB_RULE, trusted_base=TB_CONC,
                 assumptions=['Purge on the built-in queues removes and returns the contents under one lock (PurgeValues); custom IQueue implementations without PurgeValues keep the Values()+Purge() window']),
+    'C11': dict(module='Properties.C11', file='Properties/C11.v', slices=['job'],
+                families=['persist', 'recover', 'dist', 'multiq'],
+                quick_episodes=350, thorough_episodes=4000,
+                rule=SLICE_JOB_RULE + '; adapters are recording specification objects with per-call fault injection (enqueue / dequeue / acknowledge refused); '
+                     'the crash monitor checks at the end of every history that each accepted item is pending, unacknowledged, or acknowledged-and-processed, '
+                     'and family recover binds a fresh worker to a pre-loaded adapter and requires it to drain without prompting',
+                trusted_base=TB_CONC + ['the recording adapter stands for any user adapter (its own bookkeeping of pending / unacknowledged / acknowledged is the specification)'],
+                assumptions=['the adapter keeps a delivered item until Acknowledge succeeds for the id issued with that delivery (adapter contract)',
+                             'an entry that cannot be decoded, or whose acknowledgement is refused, stays unacknowledged (redelivered after a crash)']),
     'C16': dict(module='Properties.C16', file='Properties/C16.v', slices=['job'],
                 families=['burst', 'lifecycle', 'cancel'],
                 quick_episodes=350, thorough_episodes=4000,
